@@ -867,8 +867,17 @@ func (c *FnCtx) assumeRequires() {
 			}
 		}
 		if n != c.con.NReturns {
-			c.attachErr = fmt.Sprintf("contract is written for %d return statements, function has %d", c.con.NReturns, n)
-			return
+			// postconditions keyed to one return cannot be placed any more: the function is undecided.
+			// Proof hints (return N use) keyed to a return are merely dropped: the postconditions are
+			// still generated and fail by name if they needed the hint.
+			for _, cl := range c.con.Clauses {
+				if cl.Kind == "ensures" && cl.Ret != 0 {
+					c.attachErr = fmt.Sprintf("contract is written for %d return statements, function has %d", c.con.NReturns, n)
+					return
+				}
+			}
+			c.dropReturnHints = true
+			c.dropped = append(c.dropped, fmt.Sprintf("contract is written for %d return statements, function has %d: the return-specific proof hints are dropped", c.con.NReturns, n))
 		}
 	}
 	// the parameter types written in the contract must be the function's (closures are keyed by
@@ -966,6 +975,9 @@ func (c *FnCtx) instrReturn(x *ssa.Return) {
 		if cl.Kind != "use" || (cl.Ret != 0 && cl.Ret != ord) {
 			continue
 		}
+		if cl.Ret != 0 && c.dropReturnHints {
+			continue
+		}
 		call, ok := cl.E.(*ECall)
 		isLemma := false
 		if ok {
@@ -986,8 +998,8 @@ func (c *FnCtx) instrReturn(x *ssa.Return) {
 		}
 		t, err := env.evalBool(cl.E)
 		if err != nil {
-			c.attachErr = fmt.Sprintf("line %d: %v", cl.Line, err)
-			return
+			c.dropInvariant(cl, err) // a hint that names a variable that is gone: dropped, not fatal
+			continue
 		}
 		c.assumeAt(c.guard(), t)
 	}
